@@ -249,6 +249,10 @@ class Ctx:
             self.samples.append(jsonable(case))
 
     def violation(self, kind, signature, what, case, observed=None, expected=None):
+        # argument-class suffix of the case being judged (e.g. ":trailing-nul"), so that a recorded finding
+        # about one class of inputs never hides a violation of the same clause on other inputs
+        if kind == "oracle" and getattr(self, "sig_suffix", ""):
+            signature += self.sig_suffix
         self.violations.append(Violation(kind, signature, what, jsonable(case),
                                          jsonable(observed), jsonable(expected)))
 
@@ -277,6 +281,12 @@ def finish(ctx, level_info, build_ok, build_log, audit_res, extra_cov=None, assu
             known_hit.setdefault(v.signature, v)
         else:
             unknown.append(v)
+    # a model/implementation disagreement on the very input of a recorded finding is that finding again
+    # (the model satisfies the property there, the code does not): not a second alarm
+    def key(v):
+        return json.dumps(v.case, sort_keys=True, default=repr)
+    known_cases = {key(v) for v in ctx.violations if v.kind == "oracle" and v.signature in known_sigs}
+    unknown = [v for v in unknown if not (v.kind == "correspondence" and key(v) in known_cases)]
     for sig, v in known_hit.items():
         print(f"KNOWN-FINDING: property={ctx.prop} {known_sigs[sig]['what']} [{sig}]")
     # oracle violations decide first (they carry a concrete failing input)
@@ -452,11 +462,28 @@ def run_cases(ctx, driver, mod, cases):
     outs = driver.run(reqs) if (driver is not None and reqs) else ([] if driver is not None else None)
     for c, o, (s, k) in zip(kept, observed, spans):
         try:
+            ctx.sig_suffix = case_class_suffix(c)
             mod.judge(ctx, c, o, outs[s:s + k] if outs is not None else None)
         except Exception as e:
             import traceback
             ctx.violation("correspondence", "judge-crash", f"judging a case crashed: {e!r}", c, traceback.format_exc()[-1500:])
             ctx.evaluations += 1
+        finally:
+            ctx.sig_suffix = ""
+
+
+def case_class_suffix(case):
+    """":trailing-nul" when a string value of the case ends in a null character (NumPy's fixed-width
+    strings cannot hold it: a recorded finding of its own, see known_findings.json)."""
+    def walk(x):
+        if isinstance(x, str):
+            return x.endswith("\x00")
+        if isinstance(x, dict):
+            return any(walk(v) for v in x.values())
+        if isinstance(x, (list, tuple)):
+            return any(walk(v) for v in x)
+        return False
+    return ":trailing-nul" if walk(case) else ""
 
 
 def default_run(mod):
